@@ -41,20 +41,45 @@ class Renderer:
     def name(self, n):
         return n["p"].rsplit("/", 1)[1]
 
+    def keynames(self, n):
+        """the key names of the list the leaf belongs to (directly or through config / state)"""
+        p = n["p"].rsplit("/", 1)[0]
+        for _ in range(2):
+            m = self.nodes.get(p)
+            if m and m["k"] == "list":
+                return set(m["keys"])
+            p = p.rsplit("/", 1)[0]
+        return set()
+
     def vgpath(self, p):
         return "".join("/vg:" + x for x in p.strip("/").split("/"))
+
+    # restrictions, defaults, units and cardinalities by leaf name and type: what the embedded
+    # schema has to carry over (C27); they do not change the structure the model describes
+    DECOR = {("w", "uint32"): ('type uint32 { range "1..100 | 200..300"; }', 'default "5";'),
+             ("v", "string"): ('type string { length "1..20"; pattern "[a-z0-9/]*"; }', ""),
+             ("a", "string"): ('type string;', 'default "dflt";'),
+             ("e", "enum-typedef"): ('type etd;', 'default "TWO";'),
+             ("cnt", "uint64"): ('type uint64;', 'units "packets";'),
+             ("x", "int64"): ('type int64 { range "-9223372036854775808..-1 | 10..max"; }', ""),
+             ("ca", "string"): ('type string { length "3"; }', "")}
 
     def stmt(self, n, ind, parent_cfg):
         nm = self.name(n)
         cfg = "" if n["cfg"] == parent_cfg else ind + "  config %s;\n" % ("true" if n["cfg"] else "false")
         if n["k"] == "leaf":
-            return "%sleaf %s {\n%s%s  %s\n%s}\n" % (ind, nm, cfg, ind, ytype(n["t"]), ind)
+            typ, extra = self.DECOR.get((nm, n["t"]), (ytype(n["t"]), ""))
+            if nm in self.keynames(n):
+                typ, extra = ytype(n["t"]), ""
+            return "%sleaf %s {\n%s%s  %s\n%s%s}\n" % (ind, nm, cfg, ind, typ, (ind + "  " + extra + "\n") if extra else "", ind)
         if n["k"] == "leaf-list":
-            return "%sleaf-list %s {\n%s%s  %s\n%s}\n" % (ind, nm, cfg, ind, ytype(n["t"]), ind)
+            return "%sleaf-list %s {\n%s%s  %s\n%s  max-elements 5;\n%s}\n" % (ind, nm, cfg, ind, ytype(n["t"]), ind, ind)
         body = cfg
         if n["k"] == "list":
             if n["keys"]:
                 body += ind + '  key "%s";\n' % " ".join(n["keys"])
+                if nm == "ml":
+                    body += ind + "  min-elements 0;\n" + ind + "  max-elements 7;\n"
             if n["ob"] == "user":
                 body += ind + "  ordered-by user;\n"
         elif n["pres"]:
